@@ -530,7 +530,7 @@ def p_C11(ctx):
             c2["area"] = [1000, 1]
             c2["runs"] = [{"tag": "base"}, {"tag": "s1_64", "scale": [1, 64]}, {"tag": "s3_1", "scale": [3, 1]}]
             yield c2
-    ctx.replay(add15(stride(vlib.mc_cases(st15), 60 if ctx.quick else 4, ctx.seed % 60 if ctx.quick else 0)), "dhw-mixes", "Trace_C11")
+    ctx.replay(add15(stride(vlib.mc_cases(st15), 173 if ctx.quick else 8, ctx.seed % 173 if ctx.quick else 0)), "dhw-mixes", "Trace_C11")
     ctx.nontrivial = set(range(ctx.ncases))
     ctx.assumptions = [TOL_NOTE, TRUST, "bit-exact scaling for powers of two is not claimed (hash-map summation order differs between runs)", "scalings that take a non-zero value below 0.01 kWh are outside the quantifier and are skipped by the harness",
                        "model level: MC_C09!CheckLayout (ScaleInt) exactly on the lattice"]
@@ -1087,7 +1087,7 @@ def p_C15(ctx):
         for c in cs:
             c.update({"fac": {"mode": "loc", "loc": "PENINSULA", "red1": [500, 500, 100]}, "kexp": [0, 1], "area": [1, 1], "lm": False, "runs": runs})
             yield c
-    ctx.replay(cfg(stride(vlib.mc_cases(st), 12 if ctx.quick else 1, ctx.seed % 12 if ctx.quick else 0)), "mixes", "Trace_C15")
+    ctx.replay(cfg(stride(vlib.mc_cases(st), 29 if ctx.quick else 1, ctx.seed % 29 if ctx.quick else 0)), "mixes", "Trace_C15")
     ctx.samples += ctx.sample_from_trace(ctx.last_trace, 2, fields=("case", "tag", "comps"))
     ctx.extra["mixes"] = ctx.ncases
     ctx.replay(file_cases(runs, locs=("PENINSULA", "CANARIAS")), "files", "Trace_C15")
@@ -1095,7 +1095,7 @@ def p_C15(ctx):
     ctx.assumptions = ["the specification has '= 0' where the code has its 0.01 kWh thresholds (the quantifier only has values that are 0 or >= 0.01 kWh)",
                        "the DHW fraction (an f32 ratio) is compared within 2e-4 + 2e-4 relative", TRUST,
                        "components tagged CTEEPBD_EXCLUYE_* are not recomputed (TLC strings are atomic); they are only covered by the value/error, misc-key and invariance clauses"]
-    return ctx.finish("TLC enumerates DHW supply mixes (2^7 x 3 combinations of direct electric, PV, heat pump, solar thermal, gas, district heat, biomass with/without output, densified biomass) x other services x non-EPB use x auxiliaries x demand {consistent, absent, zero}, checks range, closed forms, invariances and error classes on Acs!AcsFraction, and the mixes are replayed (one twelfth in the quick tier): TLC recomputes the fraction from the logged inputs and compares value or error class, misc keys and invariance under k_exp / scaling / removal of non-EPB use / removal of the other services' non-electric use; shipped files and random buildings add the relational clauses; non-trivial = cases with a fraction strictly between 0 and 1")
+    return ctx.finish("TLC enumerates DHW supply mixes (2^7 x 3 combinations of direct electric, PV, heat pump, solar thermal, gas, district heat, biomass with/without output, densified biomass) x other services x non-EPB use x auxiliaries x demand {consistent, absent, zero}, checks range, closed forms, invariances and error classes on Acs!AcsFraction, and the mixes are replayed (one in 29 in the quick tier): TLC recomputes the fraction from the logged inputs and compares value or error class, misc keys and invariance under k_exp / scaling / removal of non-EPB use / removal of the other services' non-electric use; shipped files and random buildings add the relational clauses; non-trivial = cases with a fraction strictly between 0 and 1")
 
 
 PROPS = {
